@@ -32,5 +32,8 @@ ASSUMPTIONS = {
         'CPython 3.12, more_itertools, sortedcontainers and (where a SAT peer is involved) z3 are trusted',
         'peers are in-process stubs that stay inside the real peers\' documented contracts (DESIGN.md section 6.2)',
         'a clean batch is evidence over the seeds and bounds explored, not a proof',
+        'bounds of the workloads: circuits of up to a few dozen gates (plus rare cases of 1100-2000 gates for traversals and the codec), '
+        'functions compared on all rows up to 10 inputs and on 512 fixed rows up to 96 inputs, gate arity up to 9 (parity gates never wider than 11 operands: '
+        'their CNF has 2^arity clauses), no recursion-depth cases for the recursive Tseytin walk',
     ],
 }
